@@ -11,6 +11,7 @@
   Models: SH.Model.Agg (ItemValue/ItemCounter.Merge, AddValueCounterHost, tsValues.merge), SH.Model.Unique (ChUnique).
   Part 1: values and hosts, every binary merge tree with every stream of random draws (`Tree`).
   Part 2: API rows (`TsTree`).
+  Part 6: `table_refines`: rehash/resize restore well-formedness; the real table realises the canonical sketch (insert programs).
   Part 5: MultiValue.ApplyUnique (event-level entry) is a Merge with one contribution plus a stream of inserts.
   Part 4: the concrete open-addressing table (SH.Model.UniqueTable) refines the set model of Part 3 (`table_refines`, partial).
   Part 3: the unique sketch: every program of inserts and merges ends in the canonical state of the set of inserted
@@ -22,6 +23,7 @@ import SH.Model.Agg
 import SH.Gen.C04
 import SH.Lemmas.UniqueTrie
 import SH.Lemmas.UniqueTable
+import SH.Lemmas.UniqueTableWF
 namespace SH.C04
 open SH.Agg
 
@@ -1263,17 +1265,20 @@ theorem tsUnique_good (P : Params) (hP : PWF P) (v r : Ts) (U1 U2 W : Finset ℕ
   itemsCount and exactly the values stored in the table `t`. `WF P t`: 2^sizeDegree slots, no value stored twice, every
   stored value reachable from its home slot without crossing an empty slot, itemsCount = occupied slots (+ zero item).
 
-  FULL STATEMENT (not proved in full):
-    theorem table_refines : for every sequence of insertHash / Merge / MergeRead steps from Reset, `WF` is an invariant of
-      the table and `Refines` holds after every step.
-  PROVED: every table operation commutes with the abstraction (`table_refines_insertImpl`, `table_rehash_values`,
-    `table_resize_values`, and one whole insertHash step from a well-formed table, `table_refines_step_partial`), insertImpl
-    keeps `WF`, and `WF` is decided by the executable `wfb` (`wfb_decides_WF`) which the driver evaluates after every
-    replayed op.
-  MISSING: that rehash and resize (with the `i < oldSize || buf[i] != 0` bound) re-establish reachability. That this is
-    the part the table's correctness hangs on is shown by the witness below: with the loop bound shortened to
-    `i < oldSize` every theorem of this part still holds (the values are the same), but a wrapped value is stranded, `WF`
-    fails, and the next insert of that value is counted twice.
+  PROVED (Parts 4 and 6): every table operation commutes with the abstraction (`table_refines_insertImpl`,
+    `table_rehash_values`, `table_resize_values`); `WF` is kept by insertImpl, RESTORED by rehash (both loops,
+    `table_rehash_restores_WF`) and by resize with the real loop bound (`table_resize_restores_WF`), hence an invariant of
+    insertHash including thinning and growth (`table_refines_step`); for every stream of inserts from the empty table the
+    table is well-formed, its abstraction is the set model and `canonical_sketch` holds for it (`table_refines`, Part 6);
+    `WF` is decided by the executable `wfb` (`wfb_decides_WF`) which the driver evaluates after every replayed op.
+    Hypotheses the loops need (and the code maintains: itemsCount ≤ maxFill = half the table before every insert, table
+    size ≥ 4): one free slot for rehash/resize, new size ≥ 2 × old size for resize.
+  STILL PARTIAL: the program-level `table_refines` is proved for insert programs; Merge and MarshallAppend+MergeRead at
+    table level are covered only step-wise (their loops are folds of the insertHash step proved here, preceded by the
+    rehash / resize proved here) — the fold over rhs.buf in slot order has not been assembled into one program theorem.
+  The witness below (`ResizeV.oldOnly`, seeded change C03-2) shows the real loop bound is necessary: with `i < oldSize`
+    every value-level theorem still holds, but a wrapped value is stranded, `WF` fails, and the next insert of that value
+    is counted twice.
 -/
 open SH.UTable
 
@@ -1401,6 +1406,141 @@ theorem applyUnique_eq (P : Unique.Params) (d : Nat) (s : Multi) (hashes : List 
 /-- non-vacuity: unique [1 2 2 100] with count 20 (the comment in the Go source): sum = 105·20/4, in quarter units 2100 -/
 example : (uniqueItem [1, 2, 2, 100] 80 7).sum = 2100 ∧ (uniqueItem [1, 2, 2, 100] 80 7).vmin = 1 ∧
     (uniqueItem [1, 2, 2, 100] 80 7).vmax = 100 ∧ (uniqueItem [1, 2, 2, 100] 80 7).cnt = 80 := by decide
+
+
+open SH.Unique SH.UTable
+
+/-- rehash — the pass over the table AND "process the first collision resolution chain once again" — restores reachability:
+    a well-formed table with one free slot stays well-formed (any new skipDegree) -/
+theorem table_rehash_restores_WF (P : Params) (t : Tb) (w : WF P t) (k' e0 : Nat) (he : e0 < UTable.size t) (h0 : UTable.get t e0 = 0) :
+    WF P (UTable.rehash P { t with k := k' }) := rehash_wf P t w k' e0 he h0
+
+/-- resize with the real loop bound `i < oldSize || buf[i] != 0` restores reachability in the larger table
+    (hypothesis the code maintains: the table is not full; the new table is at least twice as large) -/
+theorem table_resize_restores_WF (P : Params) (t : Tb) (w : WF P t) (newSd : Nat) (hge : t.sd + 1 ≤ newSd)
+    (hroom : (items t).length + 1 ≤ UTable.size t) : WF P (UTable.resize .full P t newSd) := resize_wf P t w newSd hge hroom
+
+/-- `WF` is an invariant of a whole insertHash step (insertImpl, thinning loop, growth), given two free slots before it:
+    this is what `table_refines_step_partial` was missing -/
+theorem table_refines_step (P : Params) (t : Tb) (s : Sk) (w : WF P t) (r : Refines P t s) (x : Nat) (hx : x < 2 ^ P.bits)
+    (hroom : (items t).length + 2 ≤ UTable.size t) :
+    WF P (UTable.insertHash .full P t x) ∧ Refines P (UTable.insertHash .full P t x) (Unique.insertHash P s x) := by
+  obtain ⟨j, hj, hj0⟩ := room_of_len t w.shape (by omega)
+  exact ⟨insertHash_wf P t w x hroom, (insertHash_refines_values .full P t s w r x hx j hj hj0).2⟩
+
+/-! ## Part 6 — `table_refines`: the real data structure (open-addressing table) stays well-formed and equals the set model -/
+
+theorem thinLoop_sd (P : Params) : ∀ (f : Nat) (s : Sk), (Unique.thinLoop P f s).sd = s.sd := by
+  intro f
+  induction f with
+  | zero => intro s; rfl
+  | succ f ih =>
+    intro s
+    simp only [Unique.thinLoop]
+    split
+    · rw [ih]; rfl
+    · rfl
+
+theorem insertHash_sd_ge (P : Params) (s : Sk) (x : Nat) : s.sd ≤ (Unique.insertHash P s x).sd := by
+  unfold Unique.insertHash
+  split
+  · have e : (Unique.insertImpl P s x).sd = s.sd := by unfold Unique.insertImpl; split <;> rfl
+    unfold Unique.shrinkIfNeed
+    split
+    · omega
+    · split
+      · rw [thinLoop_sd]; omega
+      · show s.sd ≤ (Unique.insertImpl P s x).sd + 1; omega
+  · omega
+
+/-- the joint invariant: the table is well-formed, the set model is its abstraction, the set model represents `U`
+    canonically (Part 3), and the table has at least 4 slots -/
+structure TInv (P : Params) (t : Tb) (s : Sk) (U W : Finset ℕ) : Prop where
+  wf : WF P t
+  ref : Refines P t s
+  good : Good P s U W
+  sd2 : 2 ≤ s.sd
+
+theorem tinv_room (P : Params) (t : Tb) (s : Sk) (U W : Finset ℕ) (h : TInv P t s U W) : (items t).length + 2 ≤ size t := by
+  have h1 := h.wf.cnt; unfold CntOk at h1
+  have h2 := h.good.fill
+  have h3 := h.ref.cnt
+  have h4 := h.ref.sd
+  have h5 := h.sd2
+  unfold Unique.maxFill at h2
+  unfold UTable.size
+  rw [← h4]
+  have e : 2 ^ s.sd = 2 * 2 ^ (s.sd - 1) := by
+    rw [show s.sd = (s.sd - 1) + 1 by omega, Nat.pow_succ]; simp; omega
+  have e2 : 2 ≤ 2 ^ (s.sd - 1) := by
+    calc 2 = 2 ^ 1 := by norm_num
+      _ ≤ 2 ^ (s.sd - 1) := Nat.pow_le_pow_right (by omega) (by omega)
+  split at h1 <;> omega
+
+theorem tinv_step (P : Params) (t : Tb) (s : Sk) (U W : Finset ℕ) (h : TInv P t s U W) (x : Nat) (hx : x ∈ W) :
+    TInv P (UTable.insertHash .full P t x) (Unique.insertHash P s x) (insert x U) W := by
+  have hroom := tinv_room P t s U W h
+  obtain ⟨j, hj, hj0⟩ := room_of_len t h.wf.shape (by omega)
+  have hxb := h.good.bound x hx
+  exact { wf := insertHash_wf P t h.wf x hroom,
+          ref := (insertHash_refines_values .full P t s h.wf h.ref x hxb j hj hj0).2,
+          good := insertHash_good P s U W x h.good hx,
+          sd2 := Nat.le_trans h.sd2 (insertHash_sd_ge P s x) }
+
+theorem tinv_fold (P : Params) : ∀ (xs : List Nat) (t : Tb) (s : Sk) (U W : Finset ℕ), TInv P t s U W → (∀ x ∈ xs, x ∈ W) →
+    TInv P (xs.foldl (UTable.insertHash .full P) t) (xs.foldl (Unique.insertHash P) s) (U ∪ xs.toFinset) W := by
+  intro xs
+  induction xs with
+  | nil => intro t s U W h _; simpa using h
+  | cons x xs ih =>
+    intro t s U W h hx
+    simp only [List.foldl_cons, List.toFinset_cons]
+    have := ih _ _ _ W (tinv_step P t s U W h x (hx x (by simp))) (fun y hy => hx y (by simp [hy]))
+    have e : U ∪ insert x xs.toFinset = insert x U ∪ xs.toFinset := by
+      ext y; simp only [Finset.mem_union, Finset.mem_insert]; tauto
+    rw [e]; exact this
+
+theorem tinv_reset (P : Params) (hP : PWF P) (h2 : 2 ≤ P.initDeg) (W : Finset ℕ) (hW : ∀ x ∈ W, x < 2 ^ P.bits) :
+    TInv P (UTable.reset P) (Unique.reset P) ∅ W := by
+  have hget : ∀ i, get (UTable.reset P) i = 0 := by
+    intro i; unfold UTable.get UTable.reset; simp [Array.getD]
+  have hitems : items (UTable.reset P) = [] := by
+    unfold items slots UTable.reset nz; simp
+  refine { wf := ?_, ref := ?_, good := ?_, sd2 := h2 }
+  · exact { shape := by unfold Shape slots UTable.reset UTable.size; simp,
+            inj := by intro i j _ _ h; exact absurd (hget i) h,
+            reach := by intro i _ h; exact absurd (hget i) h,
+            cnt := by unfold CntOk; rw [hitems]; simp [UTable.reset] }
+  · exact { alloc := rfl, k := rfl, sd := rfl, cnt := rfl,
+            vals := by unfold tvals; rw [hitems]; simp [Unique.reset, keys_nil, UTable.reset],
+            bound := by unfold tvals; rw [hitems]; simp [UTable.reset] }
+  · have := ensure_good P hP nilSk ∅ W (Or.inr ⟨rfl, rfl, hW⟩)
+    simpa [Unique.ensure, nilSk] using this
+
+/-- `table_refines`, insert programs: for every stream of inserted hashes, the concrete open-addressing table (buf, probing,
+    rehash, resize as in the code) is well-formed, its abstraction is the set model, and the set model is the canonical
+    sketch of the inserted set — so `canonical_sketch` holds for the real data structure:
+    skipDegree is the least one that fits and itemsCount is the number of inserted hashes divisible by 2^skipDegree. -/
+theorem table_refines (P : Params) (hP : PWF P) (h2 : 2 ≤ P.initDeg) (xs : List Nat) (hb : ∀ x ∈ xs, x < 2 ^ P.bits) :
+    WF P (xs.foldl (UTable.insertHash .full P) (UTable.reset P)) ∧
+    Refines P (xs.foldl (UTable.insertHash .full P) (UTable.reset P)) (xs.foldl (Unique.insertHash P) (Unique.reset P)) ∧
+    (fil (xs.foldl (UTable.insertHash .full P) (UTable.reset P)).k xs.toFinset).card ≤ limit P ∧
+    (∀ j < (xs.foldl (UTable.insertHash .full P) (UTable.reset P)).k, limit P < (fil j xs.toFinset).card) ∧
+    (xs.foldl (UTable.insertHash .full P) (UTable.reset P)).cnt =
+      (fil (xs.foldl (UTable.insertHash .full P) (UTable.reset P)).k xs.toFinset).card := by
+  have h0 := tinv_reset P hP h2 xs.toFinset (by intro x hx; exact hb x (List.mem_toFinset.mp hx))
+  have h := tinv_fold P xs _ _ ∅ xs.toFinset h0 (by intro x hx; exact List.mem_toFinset.mpr hx)
+  rw [Finset.empty_union] at h
+  obtain ⟨a, b, c⟩ := good_canonical P _ _ h.good
+  rw [h.ref.k] at a b c
+  exact ⟨h.wf, h.ref, a, b, by rw [← h.ref.cnt]; exact c⟩
+
+/-- non-vacuity: the real parameters satisfy the hypotheses; and a concrete run on the toy table -/
+example : PWF Unique.real ∧ 2 ≤ Unique.real.initDeg := ⟨real_pwf, by decide⟩
+set_option maxRecDepth 20000 in
+example : PWF toyT ∧ 2 ≤ toyT.initDeg ∧ (∀ x ∈ [28, 12, 4, 33, 7, 52, 9, 61, 17], x < 2 ^ toyT.bits) ∧
+    (tabOf .full [28, 12, 4, 33, 7, 52, 9, 61, 17]).k = 1 ∧ (tabOf .full [28, 12, 4, 33, 7, 52, 9, 61, 17]).cnt = 4 := by
+  refine ⟨⟨by decide, by decide⟩, by decide, by decide, by decide, by decide⟩
 
 
 end SH.C04
